@@ -9,7 +9,7 @@ props = [json.loads(l) for l in open(os.path.join(HERE, "properties.jsonl"))]
 TECH = "explicit TLA+ specification checked with TLC; "
 CLAIMS = {
  "C01": dict(
-  text="TLC enumerates the input space (every operator x every leaf tuple of a per-sort pool, all two-operator compositions, quantifier shapes); every real simplify() result is validated by TLC against the TLA+ contract SimplifyContract (TypeOf, FreeSyms, Eval under bounded interpretations, division-by-zero left unconstrained). Bounded-exhaustive with an independent executable semantics as oracle.",
+  text="TLC enumerates the input space (every operator x every leaf tuple of a per-sort pool, all two-operator compositions, quantifier shapes); every real simplify() result is validated by TLC against the TLA+ contract SimplifyContract (TypeOf, FreeSyms, Eval under bounded interpretations, division-by-zero left unconstrained). Bounded-exhaustive with an independent executable semantics as oracle. (A) MC_Simplify: TLC checks that the implementation-shaped rule model spec/Simplifier.tla (one rule per walk_* method) satisfies SimplifyContract and folds ground terms to constants on every term of the enumerated layers; Trace_Simp binds the code to the rule model rule by rule (out = Simp(in) up to commutative-argument order, differences reported as MODEL-DRIFT).",
   note="TLA+ transcription of SMT-LIB semantics (SmtEval), exporter harness/term_io.py, bounded carriers per sort, BV width <= 15 for value checks",
   tech=TECH + "TLC-generated inputs replayed into pySMT, (in,out) traces validated by TLC against the contract", ref="DESIGN.md 3 C01"),
  "C03": dict(
@@ -53,11 +53,11 @@ CLAIMS = {
   note="FMCalls.tla denotations are the documented spellings/normalisations; array-value assignment order (by object address) is abstracted by key-sorting",
   tech=TECH + "design model checking of the hash-consing state machine + TLC-generated call histories replayed on FormulaManager, identity/read-back validated by TLC", ref="DESIGN.md 3 C04"),
  "C20": dict(
-  text="(A) TLC model-checks the implementation-shaped DagWalker machine (explicit stack, memo, expand/compute phases, failure path, one-shot memo) for every rooted DAG shape (4 nodes quick / 5 thorough, fan-out <= 2): VisitOnce, PushBound, ChildrenFirst, FailureTransparent and termination (liveness under weak fairness); the pre-fix configuration must yield the known counterexample (vacuity guard). (B/C) the same shapes, instantiated with every nestable operator family, are fed to the real walkers whose per-instance function tables are wrapped from outside; TLC validates every logged callback sequence (each node at most K times, children first, only and all reachable nodes). Scaling families beyond TLC's reach (20,000-deep chains, 2^60-tree diamonds) are run through construction, simplify, substitute, oracles, get_logic, rewriters, DAG printing and re-parsing and validated for success and callbacks <= K * distinct nodes.",
+  text="(A) TLC model-checks the implementation-shaped DagWalker machine (explicit stack, memo, expand/compute phases, failure path, one-shot memo) for every rooted DAG shape (4 nodes quick / 5 thorough, fan-out <= 2): VisitOnce, PushBound, ChildrenFirst, FailureTransparent and termination (liveness under weak fairness); the pre-fix configuration must yield the known counterexample (vacuity guard). (B/C) the same shapes, instantiated with every nestable operator family, are fed to the real walkers whose per-instance function tables are wrapped from outside; TLC validates every logged callback sequence (each node at most K times, children first, only and all reachable nodes). Scaling families beyond TLC's reach (20,000-deep chains, 2^60-tree diamonds) are run through construction, simplify, substitute, oracles, get_logic, rewriters, DAG printing and re-parsing and validated for success and callbacks <= K * distinct nodes. Expansions (pops of unexpanded stack entries) are logged by wrapping _push_with_children_to_stack and bounded by the incoming edges; theory DAGs are also walked below an atom by the Boolean-level walkers.",
   note="the absolute nesting depth reached is an observation on the interpreter; the algorithmic claims (visit-once, no per-level recursion) are model-checked and trace-validated. Parser work is measured by consumed text (it has no walker).",
   tech=TECH + "design model checking of the walker machine over all DAG shapes + trace validation of real callback sequences and scaling runs", ref="DESIGN.md 3 C20"),
  "C14": dict(
-  text="Abstract spec (Environment.tla): every query/transformation is a pure function of its arguments; the state kept between calls is unobservable. (A) MC_Walker checks memo reuse across consecutive walks on a long-lived walker over every DAG shape. (B/C) TLC enumerates call histories (all sequences of length <= 2 over a 20-call alphabet, simulated length 8); each is run in one environment followed by a 20-probe suite, the suite alone in a fresh twin; TLC validates pairwise equality up to commutative-argument order and a bijection of fresh names (ACEq / Bijections in TLA+), and that repeating a formula-valued call returns the very same object.",
+  text="Abstract spec (Environment.tla): every query/transformation is a pure function of its arguments; the state kept between calls is unobservable. (A) MC_Walker checks memo reuse across consecutive walks on a long-lived walker over every DAG shape. (B/C) TLC enumerates call histories (all sequences of length <= 2 over a 20-call alphabet, simulated length 8); each is run in one environment followed by a 20-probe suite, the suite alone in a fresh twin; TLC validates pairwise equality up to commutative-argument order and a bijection of fresh names (ACEq / Bijections in TLA+), and that repeating a formula-valued call returns the very same object. A TLC-generated shared-subterm family (one term per two-operator shape: all analyses of T, then of T's sub-terms and T again, vs a fresh twin that only built T) exposes oracles that mutate memoised result objects.",
   note="harness/envcalls.py call catalogue (4 formulas sharing sub-DAGs); raw Theory objects are probed to expose aliasing of memoised values",
   tech=TECH + "TLC-enumerated call histories replayed against twin environments, results validated by TLC up to AC / fresh-name equality", ref="DESIGN.md 3 C14"),
  "C15": dict(
@@ -69,7 +69,7 @@ CLAIMS = {
   note="real-valued bisection excluded as in the property; oracle answers re-validated by TLC; routines are run under a 20 s limit (non-termination is reported as a violation)",
   tech=TECH + "design model checking over a nondeterministic oracle + real optimizer runs on a brute-force oracle validated by TLC", ref="DESIGN.md 3 C18"),
  "C19": dict(
-  text="(A) TLC model-checks parent, 3 member processes, the signalling queue and the single shared control pipe for every member-behaviour vector (answer / raise-or-unknown / crash before posting / crash after posting) and every interleaving: Agreement, NoLoserConsumesCtrl, RaisesOnlyIfNobodyAnswered, liveness SolveReturns and AnswerIfSomeoneAnswers under weak fairness; the model of the pinned code must yield the blocking counterexample. (B/C) TLC-enumerated schedules (behaviour vector x release order x members released while the winner is being selected x near-ties) are replayed on the real Portfolio with real forked processes whose completion is gated; blocking is decided structurally (parent inside solve, every member dead, queue empty); TLC validates verdict, error-instead-of-blocking, that only the winner serves control commands, and the model/value against the assertions with Eval, over one or two consecutive solves.",
+  text="(A) TLC model-checks parent, 3 member processes, the signalling queue and the single shared control pipe for every member-behaviour vector (answer / raise-or-unknown / crash before posting / crash after posting) and every interleaving: Agreement, NoLoserConsumesCtrl, RaisesOnlyIfNobodyAnswered, liveness SolveReturns and AnswerIfSomeoneAnswers under weak fairness; the model of the pinned code must yield the blocking counterexample. (B/C) TLC-enumerated schedules (behaviour vector x release order x members released while the winner is being selected x near-ties) are replayed on the real Portfolio with real forked processes whose completion is gated; blocking is decided structurally (parent inside solve, every member dead, queue empty); TLC validates verdict, error-instead-of-blocking, that only the winner serves control commands, and the model/value against the assertions with Eval, over one or two consecutive solves. The model covers two consecutive solves with a freshly chosen verdict; the design alternative with one signalling queue for the object's life must yield the stale-answer counterexample (vacuity guard), and the replayed two-solve runs change the assertions and the verdict between the solves.",
   note="fake member solvers registered in the environment's factory; the gating wrappers around multiprocessing.Process/Queue only delay and log; get_model on a winner that died after posting is outside the property",
   tech=TECH + "design model checking of the process/queue/pipe protocol (safety + liveness) + TLC-enumerated schedules replayed on real forked processes, outcomes validated by TLC", ref="DESIGN.md 3 C19"),
  "C07": dict(
